@@ -14,7 +14,9 @@ from .common import MachineryError, seed, workdir, rm
 
 # origins: different binades of epoch/3600 and of epoch itself, 1975..2037
 ORIGINS = [P.epoch_of(1975, 3, 9), P.epoch_of(1986, 11, 2, 0, 20, 0), P.epoch_of(2004, 1, 10, 13, 40, 0),
-           P.epoch_of(2013, 2, 20), P.epoch_of(2021, 8, 29, 7, 0, 0), P.epoch_of(2037, 6, 1, 0, 40, 0)]
+           P.epoch_of(2013, 2, 20), P.epoch_of(2021, 8, 29, 7, 0, 0), P.epoch_of(2037, 6, 1, 0, 40, 0),
+           # before and across the Unix origin: negative epochs
+           P.epoch_of(1963, 7, 14, 6, 0, 0), -7200]
 ZONES = ["UTC", "Etc/GMT-7", "Etc/GMT+5", "Asia/Kolkata"]
 
 
